@@ -50,12 +50,12 @@ SPEC = {
         "provides.  3-D theorems are conditional on `extract3 m = some sc`",
     ],
     "rule": "correspondence hcmodel vs hcrender on: every WF 2-map with n<=N darts (N=4 quick / 5 thorough) incl. removed, "
-            "isolated, open and degenerate faces (model must predict panic or the exact scene); every WF 3-map n<=3 (4: sample); "
+            "isolated, open and degenerate faces (model must predict panic or the exact scene); every WF 3-map n<=3 plus 10% of n=4 (quick) / n<=4 (thorough); "
             "glued-faces 3-map family after random links; planar meshes (polygons, pinwheels of convex/non-convex quads, "
             "split grids with holes) with shuffled dart labels and removed darts; protocol-built meshes after edit histories "
             "(2-unsew/re-sew, face removal, damage); 3-D cell pairs (cube/tet/prism/pyramid) sewn and unsewn.  The property "
             "oracle is evaluated on every case that lies in the property's domain (all in-use darts on closed faces of >=3 "
-            "sides, every vertex id embedded, 3-D: mirrored faces; normals additionally need non-degenerate corners). "
+            "sides, every vertex id embedded, 3-D: faces mirrored and 3-linked to a *different* β1-cycle; normals additionally need non-degenerate corners). "
             "distinct_nontrivial = distinct implementation transcripts.",
     "not_proved": [
         "normals (FaceNormals / VolumeNormals vectors) are finite unit vectors: glam f32 arithmetic is not modelled; oracle "
@@ -270,6 +270,12 @@ def oracle_scene(case, li):
                 return None
             if (b[3][d] == 0) != (b[3][b[1][d]] == 0):
                 bump("outside: face partially 3-linked")
+                return None
+            if b[3][d] in cyc(d):
+                # β3 pairs two darts of the same β1-cycle (a face folded onto itself): well-formed and "mirrored", but
+                # three_link refuses it (NonFreeBase on the second pair), so no history of edits produces it; the code
+                # then walks the same cycle twice and emits every dart entity twice (the model agrees)
+                bump("outside: face 3-linked to itself")
                 return None
     vids = sorted({vid(d) for d in inuse})
     if any(a0[v] is None for v in vids):
@@ -723,8 +729,9 @@ def run(tier, seed):
     r = campaign20(exhaustive2(4 if q else 5, rng), binary)
     r["stats"]["exhaustive"] = True
     parts.append((f"exhaustive WF 2-maps n<={4 if q else 5}", r))
-    parts.append(("exhaustive WF 3-maps n<=3" + ("" if q else " + 30% of n=4"),
-                  campaign20(exhaustive3(3, rng) if q else exhaustive3(4, rng, 0.3), binary)))
+    r = campaign20(exhaustive3(4, rng, 0.1 if q else 1.0), binary)
+    r["stats"]["exhaustive"] = True
+    parts.append(("exhaustive WF 3-maps n<=3 + 10% of n=4" if q else "exhaustive WF 3-maps n<=4", r))
     parts.append(("glued faces 3-D", campaign20(glued3(rng, 2, 4, 1.0) + (glued3(rng, 3, 3, 1.0) if not q else []), binary)))
     parts.append(("planar meshes 2-D", campaign20(meshes2(1200 if q else 12000, rng), binary)))
     parts.append(("edit histories 2-D", campaign20(histories2(800 if q else 8000, rng), binary)))
